@@ -916,3 +916,32 @@ Example snapshot_is_state_nonvacuous :
   RInv w_state /\ staged_nonempty (r_st w_state) = true
   /\ exists r', rstep Checked w_sz w_state OUpdate (w_orc 4000000 4) = Some r'.
 Proof. split; [apply w_state_inv|]. split; [vm_compute; reflexivity|]. eexists. vm_compute. reflexivity. Qed.
+
+(** The loop never cuts into the leading run of protected deltas ("always keep min_nr files,
+    always keep files younger than min_seconds"). *)
+Lemma age_loop_protected a c now ds : forall keep k j,
+  age_loop a c now ds keep = Some k -> (j <= length ds)%nat ->
+  (forall i x, (i < j)%nat -> nth_error ds i = Some x -> protected c now (keep + N.of_nat i) x = true) ->
+  keep + N.of_nat j <= k.
+Proof.
+  induction ds as [|d ds IH]; intros keep k j H Hj Hp.
+  - simpl in Hj. assert (j = 0%nat) by lia. subst j. simpl in H. inv H. simpl. lia.
+  - destruct j as [|j]; [apply age_loop_le in H; simpl; lia|].
+    simpl in H. assert (P : protected c now keep d = true).
+    { specialize (Hp 0%nat d (Nat.lt_0_succ _) eq_refl). rewrite N.add_0_r in Hp. exact Hp. }
+    unfold protected in P. rewrite P in H.
+    assert (G : keep + 1 + N.of_nat j <= k).
+    { apply (IH (keep + 1) k j H); [simpl in Hj; lia|].
+      intros i x Hi Hx. specialize (Hp (S i) x (proj1 (Nat.succ_lt_mono _ _) Hi) Hx).
+      replace (keep + N.of_nat (S i)) with (keep + 1 + N.of_nat i) in Hp by lia. exact Hp. }
+    lia.
+Qed.
+
+Theorem protected_prefix_kept a c now ds k j :
+  find_deltas_truncate_age a c now ds = Some k -> (j <= length ds)%nat ->
+  (forall i x, (i < j)%nat -> nth_error ds i = Some x -> protected c now (N.of_nat i) x = true) ->
+  N.of_nat j <= k.
+Proof.
+  intros H Hj Hp. pose proof (age_loop_protected a c now ds 0 k j H Hj) as G. simpl in G. apply G.
+  intros i x Hi Hx. simpl. apply Hp; assumption.
+Qed.
